@@ -14,15 +14,33 @@ def _harness_flags():
     if re.search(r'void\s+sampleDirichletDistribution\s*\([^)]*\)\s*;', src):
         flags.append('-DC08_DIRICHLET_2ARG')
     # fixes/C08-6: Dirichlet / Beta sample log-gammas through sampleLogGammaDistribution; the harness then replays that helper
+    # fixes/C08-8: the plain gamma draws are kept and the helper is used only when every draw underflowed to 0
     if re.search(r'double\s+sampleLogGammaDistribution\s*\(', src):
-        flags.append('-DC08_LOG_GAMMA')
+        flags.append('-DC08_GAMMA_FALLBACK' if re.search(r'if\s*\(\s*sum\s*==\s*0\.0\s*\)', src) else '-DC08_LOG_GAMMA')
+    # fixes/C08-7: do the NO_CHECK constructors of the POMDP models seed their engine?  the harness mirrors the code as it is
+    try:
+        pm = open(os.path.join(os.environ.get('AITB_REPO', '/repo'), 'include/AIToolbox/POMDP/Model.hpp')).read()
+        sm = open(os.path.join(os.environ.get('AITB_REPO', '/repo'), 'include/AIToolbox/POMDP/SparseModel.hpp')).read()
+        pat = r'::(?:Sparse)?Model\(NoCheck[^{]*?rand_\(Seeder::getSeed\(\)\)[^{]*\{'
+        if re.search(pat, re.sub(r'\s+', '', pm)) and re.search(pat, re.sub(r'\s+', '', sm)):
+            flags.append('-DC08_POMDP_NOCHECK_SEEDED=true')
+    except OSError:
+        pass
+    # fixes/C08-9: do the learned factored models seed their engine?
+    try:
+        cm = re.sub(r'\s+', '', open(os.path.join(os.environ.get('AITB_REPO', '/repo'), 'src/Factored/MDP/CooperativeMaximumLikelihoodModel.cpp')).read())
+        # (the initialiser list itself contains braces: `transitions_({experience_.getGraph(), {}})`)
+        if re.search(r'CooperativeMaximumLikelihoodModel::CooperativeMaximumLikelihoodModel\([^)]*\):[^;]*?rand_\(Seeder::getSeed\(\)\)\{setDiscount', cm):
+            flags.append('-DC08_FACTORED_LEARNED_SEEDED=true')
+    except OSError:
+        pass
     return tuple(flags)
 
 
 
 SPEC = {
     'id': 'C08',
-    'lean_modules': ['AITB.Props.C08Dense', 'AITB.Props.C08Project', 'AITB.Props.C08Vose', 'AITB.Props.C08', 'AITB.Props.C08Measure', 'AITB.Props.C08Round', 'AITB.Props.C08Models'],
+    'lean_modules': ['AITB.Props.C08Dense', 'AITB.Props.C08Project', 'AITB.Props.C08Vose', 'AITB.Props.C08', 'AITB.Props.C08Measure', 'AITB.Props.C08Round', 'AITB.Props.C08Models', 'AITB.Props.C08Chain'],
     'theorems': [_D + t for t in [
         # dense inverse-CDF scan (sampleProbability, dense template)
         'dense_in_range', 'dense_preimage', 'dense_interval_length', 'dense_preimage_sum_one',
@@ -80,6 +98,21 @@ SPEC = {
         # end-to-end statements for the code as it is now (constructor + sampler, tolerance, double avg)
         'vose_sampler_in_range', 'vose_selects_valid', 'vose_selects_double_avg', 'sampleSRSparse_selects_valid', 'coopSampleS_factor_selects_valid',
         'sampleSOR_obs_selects_valid', 'sampleSORSparse_obs_selects_valid', 'sampleORSparse_selects_valid', 'dirichlet_as_projection',
+        # round 4: the matrix overloads of isProbability decide what the 1-D template decides, row by row; an accepted table
+        # satisfies the hypotheses of the sampler theorems row by row
+        'minCoeff_neg_iff', 'isProbRowMin_eq_isProb', 'isProbMatrix2D_eq_table', 'isProbMatrix3D_eq_table', 'isProbMatrix2D_iff',
+        'isProbSparse2D_iff', 'isProbSparse2D_rejects_negative', 'isProbSparse2D_rows_select_valid', 'isProbMatrix2D_rows_select_valid',
+        # round 4: sequences of samples through one engine, rows depending on the whole history (every length): one box of draw
+        # vectors whose volume is the product of the table entries; MDP / POMDP rollouts; a copied engine breaks it
+        'chainGo_length', 'chainGo_eq_iff', 'chainGo_box', 'chainProb_eq_prod', 'chain_selects_jointly',
+        'mdpRollout_selects_jointly', 'pomdpRollout_selects_jointly', 'mdpRollout_head', 'pomdpRollout_head', 'copied_engine_not_product',
+        # the same for every table accepted by isProbability: one box, each factor within 1e-6 of the table entry
+        'unitSide_iff', 'unitSide_len', 'unitSide_wf', 'chainGo_box_valid', 'chain_selects_jointly_valid', 'mdpRollout_selects_jointly_valid',
+        'coopRollout_selects_jointly', 'coopRollout_head',
+        # round 4: Dirichlet / Beta with the underflow fallback of fixes/C08-8: valid for EVERY outcome of the gamma draws; ordinary draws untouched
+        # round 4: bandit models (reward samples): arm index in range for every joint action and every flattened id; reward inside the arm's support
+        'toFactors_valid', 'fb_arm_in_range', 'flat_arm_in_range', 'armSample_in_range', 'fbSampleR_length', 'fbSampleR_getD',
+        'dirichletWithFallback_valid', 'dirichletWithFallback_isProb', 'dirichletWithFallback_eq_plain', 'betaWithFallback_in_unit',
     ]],
     'harness': 'harness/c08.cpp',
     'harness_flags': _harness_flags(),
@@ -89,7 +122,10 @@ SPEC = {
             'sums 1+-2^-21, 1+-2^-20, uniform, thirds/tenths) x a sweep of exactly scripted draws (0, 1/2, 1-2^-53, every breakpoint and its two 2^-53 '
             'neighbours, draws in the last 1e-6 of [0,1), random) for the dense and sparse samplers; alias tables reconstructed from behaviour by bisection '
             'over the 53-bit draw grid; projection inputs (valid, any sign, all negative, zero sum, near-tolerance); scripted makeRandomProbability draws; '
-            'MDP/POMDP dense and sparse model objects with the object\'s mt19937 mirrored. non-trivial = length >= 2; distinct by protocol line',
+            'MDP/POMDP dense and sparse model objects with the object\'s mt19937 mirrored (Seeder mirrored independently of the library), built on four routes (tables, NO_CHECK, setters, copy); '
+            'round 4: D x R x C tables with one defective row for the six matrix overloads of isProbability; rollouts (1..10/24 steps, history-dependent actions) on MDP/POMDP/cooperative objects; '
+            'CooperativeModel over random DDNs (non-uniform sizes, non-prefix tags of up to three keys); learned models (MaximumLikelihoodModel, sparse, cooperative); factored bandits (joint actions and flattened ids). '
+            'non-trivial = length >= 2; distinct by protocol line',
     'modelled': ['include/AIToolbox/Utils/Probability.hpp: isProbability (template), sampleProbability (dense template, sparse-row overload), '
                  'makeRandomProbability, VoseAliasSampler::sampleProbability',
                  'src/Utils/Probability.cpp: projectToProbability, VoseAliasSampler::VoseAliasSampler',
@@ -98,12 +134,17 @@ SPEC = {
                  'src/Factored/Utils/BayesianNetwork.cpp: DDNGraph::push (startIds_), getIds, getId, DDN::getTransitionProbability; '
                  'src/Factored/Utils/FactoredMatrix.cpp: FactoredMatrix2D::getValue — all driven by the harness with the whole model on the protocol line',
                  'src/MDP/SparseModel.cpp sampleSR, include/AIToolbox/POMDP/SparseModel.hpp sampleSOR/sampleOR over the stored sparse rows and the stored reward table',
-                 'include/AIToolbox/Utils/Probability.hpp: sampleDirichletDistribution, sampleBetaDistribution as functions of their gamma draws'],
+                 'include/AIToolbox/Utils/Probability.hpp: sampleDirichletDistribution, sampleBetaDistribution as functions of their gamma draws',
+                 'round 4: src/Utils/Probability.cpp + Probability.hpp: all six matrix overloads of isProbability (SparseMatrix2D as after 54353bc); sequences of samples through one engine (rollouts of MDP::Model::sampleSR, POMDP::Model::sampleSOR, CooperativeModel::sampleSR); '
+                 'MaximumLikelihoodModel / SparseMaximumLikelihoodModel / CooperativeMaximumLikelihoodModel::sampleSR (same compositions); Bandit::Model, Factored::Bandit::Model, FlattenedModel::sampleR; '
+                 'engine seeding of all 25 constructors of the sampling objects (translator: member initialisers; harness: inverse-CDF images of an independently seeded mt19937)'],
     'assumptions': ['libstdc++ std::uniform_real_distribution<double>(a,b) draws one canonical u in [0,1) per call (2 engine words) and returns a+u*(b-a); the harness measures the value it returns for the scripted words, the driver checks the word count',
                     'std::sort is modelled by List.mergeSort (result depends only on the multiset: randomProbability_perm_invariant)',
                     'VoseAliasSampler table is private: reconstructed behaviourally (switch point of each column found by bisection), cross-checked by vsample lines',
                     'avg = 1.0/n is passed to the model as the exact double the code computes; vose_correct instantiates avg = 1/n, vose_correct_any_avg / vose_correct_double_avg bound the effect of avg = fl(1/n)',
                     'Eigen compressed row-major storage: InnerIterator of a row visits its stored entries in column order',
+                    'AIToolbox::Seeder hands out the successive words of an mt19937 seeded with the root seed (uniform_int_distribution<unsigned>(0, max) on a 32-bit engine of full range returns the raw word): mirrored by the harness without calling the library; the text of getSeed / setRootSeed is pinned',
+                    'Bandit arms are std::uniform_real_distribution<double>(lo, hi): a + u*(b-a) for the canonical draw u (compared to 1e-9; the upper end may be reached by rounding)',
                     'std::gamma_distribution is not modelled: its draws are replayed from a copy of the engine and assumed positive and finite (draws that underflow to 0 are skipped and counted)',
                     'projectToProbability: finite inputs only (NaN / +-inf entries are outside the quantifier, see docs/C08.md); overflow of the double sum is finding C08-project-sum-overflow'],
 }
